@@ -914,6 +914,39 @@ func sameExpr(a, b ssa.Value, depth int) bool {
 	case *ssa.Extract:
 		y, ok := b.(*ssa.Extract)
 		return ok && x.Index == y.Index && sameExpr(x.Tuple, y.Tuple, depth+1)
+	case *ssa.Call:
+		// two calls of one field getter on the same object
+		y, ok := b.(*ssa.Call)
+		if !ok || x.Call.IsInvoke() || y.Call.IsInvoke() {
+			return false
+		}
+		cx, cy := x.Call.StaticCallee(), y.Call.StaticCallee()
+		if cx == nil || cx != cy || len(x.Call.Args) != 1 || len(y.Call.Args) != 1 || !isFieldGetter(cx) {
+			return false
+		}
+		return sameExpr(x.Call.Args[0], y.Call.Args[0], depth+1)
 	}
 	return false
+}
+
+// isFieldGetter: a method whose body is `return recv.field`.
+func isFieldGetter(fn *ssa.Function) bool {
+	if fn.Signature.Recv() == nil || len(fn.Blocks) != 1 || len(fn.Params) != 1 {
+		return false
+	}
+	ins := fn.Blocks[0].Instrs
+	var real []ssa.Instruction
+	for _, in := range ins {
+		if _, dbg := in.(*ssa.DebugRef); dbg {
+			continue
+		}
+		real = append(real, in)
+	}
+	if len(real) != 3 {
+		return false
+	}
+	fa, ok1 := real[0].(*ssa.FieldAddr)
+	ld, ok2 := real[1].(*ssa.UnOp)
+	ret, ok3 := real[2].(*ssa.Return)
+	return ok1 && ok2 && ok3 && fa.X == ssa.Value(fn.Params[0]) && ld.X == ssa.Value(fa) && len(ret.Results) == 1 && ret.Results[0] == ssa.Value(ld)
 }
